@@ -143,7 +143,15 @@ def gen_history(r, maxops, thorough):
             sim.bods[b] = None
         elif k < 0.62 and bs:
             b = r.choice(bs)
+            fdsb = sim.bods[b]["fds"]
+            if fdsb and all(not sim.taken[o] for o in fdsb) and r.random() < 0.10:
+                # take one of the body's descriptors through a clone first: the send must then be refused
+                i = r.randrange(len(fdsb))
+                push("U%d:%d" % (b, i)); sim.hnd.append(fdsb[i])
+                push("T%d" % (len(sim.hnd) - 1)); sim.hnd[-1] = None
+                sim.taken[fdsb[i]] = True; sim.cfds.append(True)
             n = sum(1 for o in sim.bods[b]["fds"] if not sim.taken[o])
+            refused = n != len(sim.bods[b]["fds"])       # a handle of the body was taken: marshal refuses
             if n > 20 and sim.nopen + n > 800:
                 continue                    # stay well below common RLIMIT_NOFILE values
             # a meaningful share of the sends that carry descriptors are resumed partial sends: the first
@@ -155,7 +163,7 @@ def gen_history(r, maxops, thorough):
             elif n == 0 and k2 < 0.10:
                 flag = ":hdr"
             push("S%d%s" % (b, flag))
-            if n <= 253:
+            if n <= 253 and not refused:
                 sim.wire.append({"n": n, "slots": sim.bods[b]["slots"]})
                 sim.nopen += n              # the peer's in-flight copies
         elif k < 0.65 and cs:
@@ -226,6 +234,10 @@ def gen_history(r, maxops, thorough):
         elif r.random() < 0.3:
             # an operation on something that may not exist (both sides skip it)
             push(r.choice(["X%d", "T%d", "C%d", "D%d", "R%d", "S%d", "W%d", "K%d"]) % r.randrange(0, 6))
+    if not cleanup and sim.live_c() and r.random() < 0.16:
+        # last operation: a frame with descriptors that cannot be delivered, then the connection is dropped
+        cs = sim.live_c()
+        push("Z%s:%s" % (r.choice("fp"), ",".join(str(r.choice(cs)) for _ in range(r.choice([0, 1, 1, 2, 3, 12]))) or "-"))
     if cleanup:
         while sim.wire:
             sim.wire.pop(0)
@@ -262,6 +274,11 @@ def apply_orders(line, impl):
             op = "G%s:%d" % (op[1:].split(":")[0], io["slots"])
         out.append(op)
     return ";".join(out)
+
+
+def model_part(line):
+    """the Z operation (undeliverable frame + dropping the connection) is judged by the audit alone"""
+    return ";".join(o for o in parse_ops(line) if o[0] != "Z")
 
 
 def load(s):
@@ -403,6 +420,8 @@ def impl_violations(line, impl):
         if kind == "S" and res.startswith("sent"):
             b = int(op[1:].split(":")[0])
             pb = prev["bods"][b]
+            if any(f < 0 for f in pb["fds"]):
+                bad.append(where + "a message was sent although %d of the %d descriptors of its body were taken: it announces descriptors it does not carry" % (sum(1 for f in pb["fds"] if f < 0), len(pb["fds"])))
             _, hdr, n = res.split(":")
             live = [f for f in pb["fds"] if f >= 0]
             if int(hdr) != len(pb["fds"]):
@@ -413,6 +432,13 @@ def impl_violations(line, impl):
                 bad.append(where + "the descriptors that arrived do not refer to the files of the body's descriptors, in order")
             if opn != popn:
                 bad.append(where + "sending changed the sender's descriptor table")
+        if kind == "S" and res == "err":
+            b = int(op[1:].split(":")[0])
+            pb = prev["bods"][b]
+            if s["wire"] != prev["wire"] or opn != popn or s["bods"] != prev["bods"]:
+                bad.append(where + "a refused send changed the wire, the descriptor table or a body")
+            if all(f >= 0 for f in pb["fds"]) and len(pb["fds"]) <= 253 and pb["hdr"] >= 0:
+                bad.append(where + "a message whose %d descriptors are all present was not sent: %s" % (len(pb["fds"]), s.get("detail")))
         if kind == "V" and res.startswith("b:") and prev["wire"]:
             nb = s["bods"][int(res[2:])]
             want = prev["wire"][0]["ids"]
@@ -426,6 +452,17 @@ def impl_violations(line, impl):
                     bad.append(where + "a received descriptor is also attached to message %d" % i)
         if kind == "V" and res == "err" and prev["wire"]:
             bad.append(where + "a complete in-flight message could not be received: %s" % s.get("detail"))
+        if kind == "Z" and res == "err":
+            arrived = s.get("arrived", 0)
+            cl = [f for f, ok in s["closes"]]
+            if opn != popn:
+                bad.append(where + "after an undeliverable frame with %d descriptors and dropping the connection the descriptor table differs: before %s after %s" % (arrived, sorted(popn), sorted(opn)))
+            if len(cl) != arrived or len(set(cl)) != len(cl):
+                bad.append(where + "%d descriptors arrived with the undeliverable frame, the library closed %s" % (arrived, cl))
+            if any(f in popn for f in cl):
+                bad.append(where + "the library closed a descriptor that was open before the frame arrived: %s" % cl)
+            if s["cfds"] != prev["cfds"] or s["hnd"] != prev["hnd"] or s["bods"] != prev["bods"]:
+                bad.append(where + "an undeliverable frame changed the caller's variables or a message")
         if kind == "U" and res != "invalid":
             b, idx = op[1:].split(":")
             pb = prev["bods"][int(b)]
@@ -499,10 +536,12 @@ def compare(line, impl, model):
     """first difference between the model's and the implementation's trace, or None"""
     if impl is None or model is None:
         return "unreadable output"
-    mo, io = model, impl["ops"]
+    ops = parse_ops(line)
+    mo = model
+    io = [s for o, s in zip(ops, impl["ops"]) if o[0] != "Z"]
+    ops = [o for o in ops if o[0] != "Z"]
     if len(mo) != len(io):
         return "different number of operations"
-    ops = parse_ops(line)
     prev_m2r = {}
     for k, (op, m, s) in enumerate(zip(ops, mo, io)):
         where = "op %d (%s): " % (k, op)
@@ -608,7 +647,7 @@ class Runner:
                 impl.append(out[0] if rc == 0 and len(out) == 1 else "CRASH rc=%s %s" % (rc, e2[-300:]))
         impls = [load(x) for x in impl]
         mlines = [apply_orders(l, i) for l, i in zip(lines, impls)]
-        ok, mod, err = vlib.par_run_lines(self.model, ["run"], mlines, timeout=timeout)
+        ok, mod, err = vlib.par_run_lines(self.model, ["run"], [model_part(l) for l in mlines], timeout=timeout)
         if not ok:
             raise vlib.BrokenTie("model driver failed", err[-2000:])
         return impl, impls, mlines, [load(x) for x in mod]
@@ -644,7 +683,7 @@ class Runner:
             ctx.count("outcome:unreadable")
             return
         names = {"O": "open", "K": "caller_close", "W": "wrap", "B": "new_body", "P": "push", "R": "reset", "D": "drop_body",
-                 "S": "send", "I": "inject", "V": "recv", "U": "unmarshal", "A": "parse", "G": "get_param", "M": "unmarshall_all", "C": "clone", "Y": "dup", "T": "take",
+                 "S": "send", "I": "inject", "V": "recv", "U": "unmarshal", "A": "parse", "G": "get_param", "M": "unmarshall_all", "Z": "undeliverable_frame_then_drop_conn", "C": "clone", "Y": "dup", "T": "take",
                  "X": "drop_handle"}
         maxfd = 0
         for op, s in zip(ops, impl["ops"]):
@@ -710,7 +749,7 @@ def coq_term(line):
         xs = [x for x in s.split(",") if x.strip() not in ("", "-")]
         return "[" + "; ".join(f(x) for x in xs) + "]"
     out = []
-    for op in parse_ops(line):
+    for op in parse_ops(model_part(line)):
         k, a = op[0], op[1:]
         if k == "O":
             out.append("Open")
@@ -751,7 +790,7 @@ def cross_check_extraction(ctx, model, lines):
         v.append("Eval vm_compute in %s." % coq_term(l))
     out = vlib.coq_eval("c11_cases", "\n".join(v) + "\n")
     blocks = re.findall(r"=\s*\[([^\]]*)\]", out)
-    rc, enc, err = vlib.run_lines(model, ["encode"], lines, timeout=600)
+    rc, enc, err = vlib.run_lines(model, ["encode"], [model_part(l) for l in lines], timeout=600)
     if rc != 0 or len(enc) != len(lines) or len(blocks) != len(lines):
         ctx.tie_broken("extraction cross-check could not be evaluated (%d coq results, %d ocaml results for %d cases)"
                        % (len(blocks), len(enc), len(lines)), out[-1500:] + err[-500:])
@@ -861,7 +900,7 @@ def setup(ctx):
                 "fail), reset, drop, send (library -> raw peer socket with write_once(Nonblock) + resume; of the sends that carry descriptors 35% with "
                 "the send buffer shrunk and a 40 kB header so that the first write ends inside the header, 15% sized so that it ends exactly at "
                 "the header/body boundary; the peer keeps every descriptor of every recvmsg), inject (raw peer crafts a message with chosen indices), receive "
-                "(raw peer -> library), read_unixfd with in-range / out-of-range indices, parse a stored slot (typed API incl. Variant::get), the dynamic Param API (parser().get_param() over leading params, MarshalledMessage::unmarshall_all; descriptors at top level and inside arrays / structs / dict entries / variants; the decoded handles and the message are later dropped in either order), clone, dup, take, drop; 7% of "
+                "(raw peer -> library), read_unixfd with in-range / out-of-range indices, parse a stored slot (typed API incl. Variant::get), the dynamic Param API (parser().get_param() over leading params, MarshalledMessage::unmarshall_all; descriptors at top level and inside arrays / structs / dict entries / variants; the decoded handles and the message are later dropped in either order), in 8% of histories a last operation outside the model: a frame with descriptors that cannot be delivered (header field that does not decode = failure before the descriptors leave RecvConn.fds_in / non-zero padding = failure after) followed by dropping the connection, judged by the audit and the close log alone, clone, dup, take, drop; 7% of "
                 "histories contain one push of 11..253 descriptors. After EVERY operation /proc/self/fd + fstat are compared with the model's "
                 "table up to renaming. distinct = distinct history text (after HashMap order feedback); non-trivial = at least one push succeeded")
     ctx.trusted = [
